@@ -538,8 +538,31 @@ fn run_case(rep: &mut Report, case: u64) {
     'rounds: for round in 0..rounds {
         let nthreads = if controlled { rng.range(2, 4) } else { rng.range(2, cfg.extra_u64("max_threads", 12) as usize) };
         let nops = if controlled { rng.range(1, cfg.ops.min(6).max(1)) } else { rng.range(cfg.ops / 2 + 1, cfg.ops.max(2)) };
-        let progs: Vec<Vec<Op>> = (0..nthreads).map(|_| gen_ops(&mut rng, nops, &mut action_id, true)).collect();
-        hist.push(format!("round {}: {} threads x {} ops: {:?}", round, nthreads, nops, progs));
+        let flood = !controlled && rng.chance(1, 16);
+        let progs: Vec<Vec<Op>> = if flood {
+            // a busy frame: thousands of queued lazy actions (nothing may be dropped or left over)
+            let per = rng.range(1200, 3000);
+            (0..nthreads)
+                .map(|_| {
+                    (0..per)
+                        .map(|_| {
+                            action_id += 1;
+                            Op::LazyExec(action_id)
+                        })
+                        .collect()
+                })
+                .collect()
+        } else {
+            (0..nthreads).map(|_| gen_ops(&mut rng, nops, &mut action_id, true)).collect()
+        };
+        if flood {
+            rep.bump("lazy_flood_rounds", 1);
+        }
+        if flood {
+            hist.push(format!("round {}: {} threads x {} queued lazy actions each", round, nthreads, progs[0].len()));
+        } else {
+            hist.push(format!("round {}: {} threads x {} ops: {:?}", round, nthreads, nops, progs));
+        }
         trace::push(hist.last().unwrap());
         let mut records: Vec<Vec<Rec>> = Vec::new();
         let sched_trace: Vec<(u16, u16)>;
